@@ -293,3 +293,7 @@ package util
 // the record type used for PRIVATE answers is the one registered with the DNS library
 //@ property C10, C12
 //@ pkginv uint16(QueryTypePrivate) == TypeSocketAce            :private_type_registered
+
+// exported views of the queue invariants for the packages that embed the queues
+//@ go func InWF(q *InQueue) bool { return inWF(q) }
+//@ go func OutWF(q *OutQueue) bool { return outWF(q) }
